@@ -15,6 +15,7 @@ RULE = (
     "(x+n, n), conversions on dense grids, the three SNR tools agree with the reference on the same tensors, same-seed scaling noise(P2)=sqrt(P2/P1)*noise(P1)); statistical clauses "
     "(zero mean, power) with exact chi-square / Bernstein acceptance intervals at level 1e-9/8000 on N=1e6 (quick) / 4e6 (thorough) samples. Distinct = configuration; non-trivial = "
     "a configured power or SNR with a random input."
+    " Added after the seeded-fault rounds: dim/keepdim forms of calculate_snr / estimate_signal_power / add_noise_for_snr against per-slice references; one channel object across real/complex/float64/reshaped inputs must answer like a fresh object under the same seed."
 )
 ASSUMPTIONS = [
     "per-test level alpha = 1e-9 / 8000 (union bound over at most 8000 planned tests)",
